@@ -286,7 +286,7 @@ class RF24MeshNoMaster(NetworkMixin):
                     time.sleep(retry_delay / 1000)
                     retry_delay += 10
             to_node = to_node_addr
-        if to_node == self._id:
+        elif to_node == self._id:  # (not an address that happens to equal this node's ID)
             to_node = self._addr
         return self.write(to_node, message_type, message)
 
